@@ -1045,21 +1045,39 @@ func (s *vSerSys) prefixes(h []string) {
 		return
 	}
 	data := buf.Bytes()
+	// every prefix through a reader that is NOTHING BUT an io.Reader (no Len, no ReadByte, a
+	// clean EOF at the cut: a truncated file, a LimitReader, a gzip stream of truncated
+	// data); every seventh prefix and the last 64 also through a *bytes.Reader (which
+	// tells its remaining length to whoever asks)
 	for l := 0; l < len(data); l++ {
-		s.c.Evaluations++
-		dst := s.k.fresh()
-		var err error
-		func() {
-			defer func() {
-				if r := recover(); r != nil {
-					s.c.Violation("prefix-panic", "", cfgS, h, fmt.Sprintf("prefix %d of %d bytes: %v", l, len(data), r))
-					err = fmt.Errorf("panic")
-				}
+		accepted := false
+		for ri := 0; ri < 2 && !accepted; ri++ {
+			if ri == 1 && l%7 != 0 && l < len(data)-64 {
+				continue
+			}
+			var rd io.Reader = struct{ io.Reader }{bytes.NewReader(data[:l])}
+			kind := "plain io.Reader"
+			if ri == 1 {
+				rd, kind = bytes.NewReader(data[:l]), "*bytes.Reader"
+			}
+			s.c.Evaluations++
+			dst := s.k.fresh()
+			var err error
+			func() {
+				defer func() {
+					if r := recover(); r != nil {
+						s.c.Violation("prefix-panic", "", cfgS, h, fmt.Sprintf("prefix %d of %d bytes (%s): %v", l, len(data), kind, r))
+						err = fmt.Errorf("panic")
+					}
+				}()
+				_, err = s.k.read(dst, rd)
 			}()
-			_, err = s.k.read(dst, bytes.NewReader(data[:l]))
-		}()
-		if err == nil {
-			s.c.Violation("prefix-accepted", "", cfgS, h, fmt.Sprintf("prefix of %d bytes of a %d-byte stream was read without error; receiver now: %s", l, len(data), s.k.canon(dst)))
+			if err == nil {
+				s.c.Violation("prefix-accepted", "", cfgS, h, fmt.Sprintf("prefix of %d bytes of a %d-byte stream (%s) was read without error; receiver now: %s", l, len(data), kind, s.k.canon(dst)))
+				accepted = true
+			}
+		}
+		if accepted {
 			break
 		}
 		s.c.Nontrivial(fmt.Sprintf("%s|%x|%d", cfgS, vHash(string(data)), l))
